@@ -283,17 +283,6 @@ theorem preInv_imputeStage {r : Row} (h : PreInv O r) (hm : r.solved = true → 
 
 /-! ### named intermediate rows of `preConf` -/
 
-def pc0 (s : Str) : Row := { input := s, reaction := s }
-def pc1 (s : Str) : Row := validate O .input true false none (pc0 s)
-def pc2 (cfg : Config) (s : Str) : Row := rbStage O cfg (pc1 O s)
-def pc3 (cfg : Config) (s : Str) : Row := validate O .rule false true none (pc2 O cfg s)
-def pc4 (cfg : Config) (s : Str) : Row := searchStage O (pc3 O cfg s)
-def pc5 (cfg : Config) (s : Str) : Row := (imputeStage O (pc4 O cfg s)).1
-def pc6 (cfg : Config) (s : Str) : Row := validate O .mcs true false none (pc5 O cfg s)
-def pc7 (cfg : Config) (s : Str) : Row := postStage O (pc6 O cfg s)
-def pc8 (cfg : Config) (s : Str) : Row := rbStage O cfg (pc7 O cfg s)
-def pc9 (cfg : Config) (s : Str) : Row := validate O .mcs true true (some finalMsg) (pc8 O cfg s)
-
 theorem preConf_eq (cfg : Config) (s : Str) : preConf O cfg s = revertStage (pc9 O cfg s) := rfl
 
 theorem pc3_hasMcs (cfg : Config) (s : Str) : (pc3 O cfg s).hasMcs = false := by
